@@ -41,7 +41,12 @@ static GLOBAL: CountingAlloc = CountingAlloc;
 /// the expression that raised it (robust against line shifts elsewhere in the file).
 fn panic_site(loc: &std::panic::Location) -> String {
     let file = loc.file();
-    let short = file.strip_prefix("/repo/").unwrap_or(file);
+    // path relative to the repository root, wherever the repository lives
+    let short = match (file.find("/core/src/"), file.find("/src/")) {
+        (Some(i), _) => &file[i + 1..],
+        (None, Some(i)) if !file.starts_with("/rustc/") => &file[i + 1..],
+        _ => file,
+    };
     let text = std::fs::read_to_string(file)
         .ok()
         .and_then(|s| s.lines().nth(loc.line() as usize - 1).map(|l| l.trim().to_string()))
